@@ -109,3 +109,9 @@ CLAIMS["C01"] = (
     "Decides rules R01.1-R01.10. These are necessary conditions of byte-exact in-order delivery; the equality of bytes read and written itself needs execution and is not claimed, nor are goroutine schedules beyond the lock discipline or the segment tree's ordering (a data structure property)." + COMMON_NOTE,
     "consume-loop recognition on go/ssa (slice/phi structure), must-hold lock check, dominance, who-may-call/who-may-write inventories, provenance of read sizes, constant folding of fragment sizes",
     "3/C01")
+
+CLAIMS["C02"] = (
+    "Necessary structural conditions of reliable, stall-free delivery over datagrams, each on every path of the code: the sender forgets a segment only under the peer's cumulative ack; the receiver releases only the exactly-next segment and acks with the current nextRecv; the peer's window is recorded from every ack and data segment; every received data datagram (duplicate or out of window) schedules an ack; the ack/heartbeat decision is reached by every output step and is gated by nothing but {opening, ack requested, heartbeat interval}; the retransmission scan is gated only by its timer, consults no window, retransmits on timeout, and its duplicate-ack trigger is bounded per segment (path-sensitive exploration over the condition atoms); only data is deferred during open and the open response ends the deferral; the congestion window can never close; datagrams are authenticated and bad ones discarded.",
+    "Decides rules R02.1-R02.9. Not decided: the liveness statement itself ('completes under a fair-lossy network') is a temporal property over network histories and schedules, outside static analysis; timer values, RTO arithmetic, cubic's growth, sequence wrap-around. These rules decide the structure whose absence produces the stalls and abandonments the property excludes." + COMMON_NOTE,
+    "transitive control-dependence vocabulary checks, path-sensitive CFG exploration over condition atoms, dominance / must-pass-through, field-store inventories, constant folding (isDataProtocol) on go/ssa",
+    "3/C02")
